@@ -173,3 +173,30 @@ func VerifH02p() {
 		vReach("protocol-maximum")
 	}
 }
+
+// ---------------------------------------------------------------------------
+// H20d — more markers than the protocol limit (C20): MARKERS (65535 by
+// default) repetitions of "$1" — concrete, so this prefix costs no solver
+// work — followed by a symbolic tail "$d" with d one arbitrary digit. The
+// length is still the highest index: the tail marker counts although it comes
+// after the 65535th marker.
+// ---------------------------------------------------------------------------
+func VerifH20d() {
+	M := vParam("MARKERS", 65535)
+	q := make([]byte, 0, 2*M+2)
+	for i := 0; i < M; i++ {
+		q = append(q, '$', '1')
+	}
+	d := nondetByte()
+	vAssume(vAnd(d >= '0', d <= '9'))
+	q = append(q, '$', d)
+	params := ParseParameters(string(q))
+	want := int(d - '0')
+	if want < 1 {
+		want = 1
+	}
+	vAssert("highest-index-after-many-markers", len(params) == want)
+	if want > 1 {
+		vReach("marker-after-the-65535th")
+	}
+}
